@@ -206,14 +206,17 @@ def inline_helpers(expr: ast.expr, resolve, depth: int = 0) -> ast.expr:
             r = resolve(node)
             if r is None:
                 return node
-            fn, skip = r
+            fn, skip = r[0], r[1]
+            self_expr = r[2] if len(r) > 2 else None
             ret = simple_return(fn)
             if ret is None:
                 return node
             params = [a.arg for a in fn.args.posonlyargs + fn.args.args]
-            if skip and params:
-                params = params[1:]
             mapping = {}
+            if skip and params:
+                if self_expr is not None:
+                    mapping[params[0]] = self_expr      # method of another object: its self is that object
+                params = params[1:]
             for p_, a in zip(params, node.args):
                 if isinstance(a, ast.Starred):
                     return node
@@ -294,3 +297,72 @@ def substituted_helper_bodies(fn, cls_info) -> List[ast.AST]:
             body = _ParamSubst(mapping).visit(body)
             out.append(ast.fix_missing_locations(body))
     return out
+
+
+def default_handler_registrations(repo) -> Dict[str, List[str]]:
+    """Request class name -> qualified names of the functions registered as its default
+    handler, by any of the three spellings the runtime offers: ``@Req.handle`` on the
+    function, a module-level ``Req.handle(fn)``, or ``[runtime.]handle_by_default(Req, fn)``."""
+    out: Dict[str, List[str]] = {}
+
+    def add(mod, req_expr, fn_name):
+        ci = repo.resolve_class(mod, req_expr) if isinstance(req_expr, (ast.Name, ast.Attribute)) else None
+        q = f"{mod.name}.{fn_name}"
+        if ci is not None and q in repo.functions:
+            out.setdefault(ci.name, [])
+            if q not in out[ci.name]:
+                out[ci.name].append(q)
+
+    for q, fi in repo.functions.items():
+        for d in fi.node.decorator_list:
+            if isinstance(d, ast.Attribute) and d.attr == "handle":
+                add(fi.module, d.value, fi.node.name)
+    for mod in repo.modules.values():
+        for st in mod.tree.body:
+            c = st.value if isinstance(st, ast.Expr) else (st.value if isinstance(st, ast.Assign) else None)
+            if not isinstance(c, ast.Call):
+                continue
+            if isinstance(c.func, ast.Attribute) and c.func.attr == "handle" and len(c.args) == 1 and isinstance(c.args[0], ast.Name):
+                add(mod, c.func.value, c.args[0].id)
+            elif short_name(c) == "handle_by_default" and len(c.args) == 2 and isinstance(c.args[1], ast.Name):
+                add(mod, c.args[0], c.args[1].id)
+    return out
+
+
+def typed_attr_resolver(repo, cls_info, selfnames=("self",)):
+    """resolver for ``inline_helpers`` that, besides ``class_resolver``'s cases, follows
+    ``self.<attr>.<method>(…)`` when the attribute's annotation names a class of the
+    repository: the method body is inlined with its ``self`` replaced by ``self.<attr>``."""
+    base = class_resolver(repo, cls_info, selfnames)
+
+    def resolve(call: ast.Call):
+        r = base(call)
+        if r is not None:
+            return r
+        f = call.func
+        if isinstance(f, ast.Attribute) and isinstance(f.value, ast.Attribute) and isinstance(f.value.value, ast.Name) and f.value.value.id in selfnames:
+            attr = f.value.attr
+            for kc in cls_info.mro():
+                if attr in kc.annotations:
+                    ann = kc.annotations[attr]
+                    while isinstance(ann, ast.Subscript):
+                        ann = ann.value
+                    if isinstance(ann, ast.Constant) and isinstance(ann.value, str):
+                        try:
+                            ann = ast.parse(ann.value, mode="eval").body
+                        except SyntaxError:
+                            return None
+                        while isinstance(ann, ast.Subscript):
+                            ann = ann.value
+                    ci = repo.resolve_class(kc.module, ann) if isinstance(ann, (ast.Name, ast.Attribute)) else None
+                    if ci is None:
+                        return None
+                    m = ci.find_method(f.attr)
+                    if m is None:
+                        return None
+                    decos = [ast.unparse(d) for d in m[1].decorator_list]
+                    if "property" in decos or "staticmethod" in decos or "classmethod" in decos:
+                        return None
+                    return m[1], True, f.value
+        return None
+    return resolve
